@@ -257,13 +257,19 @@ func c08(r *mon.Run) {
 	// two slice nodes in one expression (and one compiled expression searched twice): state kept between
 	// slice evaluations - defaults, computed bounds - must not carry over from one slice to the next
 	triples := [][3]string{{"", "", ""}, {"1", "", ""}, {"", "2", ""}, {"", "", "-1"}, {"", "", "2"}, {"1", "3", ""}, {"3", "1", "-1"}, {"-2", "", ""}, {"", "-2", ""}, {"", "", "-2"},
-		{"7", "", ""}, {"", "7", ""}, {"0", "10", "3"}, {"-1", "", "-1"}, {"", "0", "-1"}, {"4", "", "-3"}, {"-3", "-1", ""}, {"1", "4", "2"}, {"6", "2", "-2"}, {"", "", "1"}}
+		{"7", "", ""}, {"", "7", ""}, {"0", "10", "3"}, {"-1", "", "-1"}, {"", "0", "-1"}, {"4", "", "-3"}, {"-3", "-1", ""}, {"1", "4", "2"}, {"6", "2", "-2"}, {"", "", "1"},
+		{"0", "", ""}, {"", "8", ""}, {"0", "8", "1"}, {"-8", "", ""}, {"", "99", ""}, {"-99", "99", "1"}} // (the last six select the whole 8-element array forwards)
 	T := len(triples)
-	two := mon.Workload{Name: "two-slices", N: T * T * 4,
+	objs8 := make([]interface{}, 8)
+	for k := range objs8 {
+		objs8[k] = map[string]interface{}{"k": float64(k), "l": []interface{}{float64(k), float64(k + 1)}}
+	}
+	objs8[2] = nil
+	two := mon.Workload{Name: "two-slices", N: T * T * 7,
 		Describe: func(i int) string { return fmt.Sprint("two-slices case ", i) },
 		Do: func(i int, t *mon.Tally) {
-			form := i % 4
-			k := i / 4
+			form := i % 7
+			k := i / 7
 			a, b := triples[k/T], triples[k%T]
 			sa, sb := gen.StSliceS(a[0], a[1], a[2]), gen.StSliceS(b[0], b[1], b[2])
 			var tree *gen.Expr
@@ -274,10 +280,20 @@ func c08(r *mon.Run) {
 				tree = gen.Pipe(gen.Chain(nil, sa), gen.Chain(nil, sb))
 			case 2:
 				tree = gen.MultiHash([]gen.Key{{Name: "p"}, {Name: "q"}}, []*gen.Expr{gen.Chain(gen.Current(), sa, gen.StIndex(0)), gen.Chain(gen.Paren(gen.Chain(gen.Current(), sb)), gen.StIndex(-1))})
-			default:
+			case 3:
 				tree = gen.Func("not_null", gen.Chain(gen.LitJSON("null"), sa), gen.Chain(gen.Paren(gen.Chain(gen.Current(), sa)), sb))
+			case 4: // a right-hand side after each slice, over elements one of which is null: the first slice's
+				// projection must leave the array as the second one expects it
+				tree = gen.MultiList(gen.Chain(gen.Current(), sa, gen.StField("k")), gen.Chain(gen.Current(), sb, gen.StField("k")), gen.Chain(gen.Current(), sa, gen.StField("k")))
+			case 5:
+				tree = gen.MultiList(gen.Chain(gen.Current(), sa), gen.Chain(gen.Current(), sb), gen.Func("length", gen.Current()))
+			default:
+				tree = gen.MultiList(gen.Chain(gen.Current(), sa, gen.StField("l"), gen.StIndex(1)), gen.Chain(gen.Current(), sb, gen.StField("l"), gen.StFlatten()))
 			}
-			doc := seqArray(8)
+			var doc interface{} = seqArray(8)
+			if form >= 4 {
+				doc = objs8
+			}
 			expr := gen.SpellTight(tree)
 			cx := &caseCtx{r, t, "two-slices", i}
 			res, _, _ := cx.runBoth(tree, expr, doc)
